@@ -594,3 +594,64 @@ def a7_zip_alignment(ctx) -> None:
                 ctx.ok("A7", f"{m.qualname}: zip({', '.join(za)}) pairs children with their labels positionally")
             else:
                 ctx.violation("A7", l, f"children and labels are paired through `zip({', '.join(za)})`: a sorted/filtered/sliced side breaks the positional correspondence")
+
+
+def a8_memo_key_coherence(ctx) -> None:
+    """A value remembered together with the key it was computed for (`if key != last: value =
+    f(key); last = key`) stays in step with it: wherever the remembered key is updated, the
+    value has been recomputed for that key on the same path -- either before the update, or
+    after it with nothing in between that can leave.  Otherwise a later round with the same
+    key uses the value of an earlier key (the class of another label is expanded under this
+    label)."""
+    P = ctx.P
+    n = 0
+    for fi in P.all_functions():
+        f = fi.node
+        for iff in walk_local(f):
+            if not isinstance(iff, ast.If) or not isinstance(iff.test, ast.Compare) or len(iff.test.ops) != 1 or not isinstance(iff.test.ops[0], (ast.NotEq, ast.IsNot)):
+                continue
+            a, b = iff.test.left, iff.test.comparators[0]
+            if not (isinstance(a, ast.Name) and isinstance(b, ast.Name)):
+                continue
+            # which one is the remembered key: the one assigned from the other inside the branch
+            upd = [st for st in walk_local(iff) if isinstance(st, ast.Assign) and len(st.targets) == 1 and isinstance(st.targets[0], ast.Name)
+                   and isinstance(st.value, ast.Name) and {st.targets[0].id, st.value.id} == {a.id, b.id} and any(st is x for blk in [iff.body] for y in blk for x in ast.walk(y))]
+            if not upd:
+                continue
+            last, key = upd[0].targets[0].id, upd[0].value.id
+            # values recomputed from the key anywhere in the function, used outside the branch
+            vals = {}
+            for st in walk_local(f):
+                t, v = PT_assign(st)
+                if isinstance(t, ast.Name) and v is not None and t.id not in (last, key) and key in {x.id for x in ast.walk(v) if isinstance(x, ast.Name)} \
+                        and isinstance(v, ast.Call):
+                    used_outside = any(isinstance(x, ast.Name) and x.id == t.id and isinstance(x.ctx, ast.Load) and not any(x is y for y in ast.walk(iff)) for x in walk_local(f))
+                    if used_outside:
+                        vals.setdefault(t.id, []).append(st)
+            if not vals:
+                continue
+            ctx.analysed(fi)
+            for vname, sts in vals.items():
+                n += 1
+                ok = True
+                for u in upd:
+                    fine = any(any(s is x for y in iff.body for x in ast.walk(y)) and (C.dominates(f, s, u) or C.followed_by(f, u, s)) for s in sts)
+                    if not fine:
+                        ok = False
+                        ctx.violation("A8", u, f"{fi.qualname}: `{last}` is set to `{key}` on a path where `{vname}` is not recomputed for that `{key}` (it is computed "
+                                      f"at line {sts[0].lineno}): the next packet with the same `{key}` finds `{key} == {last}` and uses the `{vname}` of an earlier `{key}`")
+                outside = [s for s in sts if not any(s is x for y in iff.body for x in ast.walk(y))]
+                if ok and not outside:
+                    ctx.ok("A8", f"{fi.qualname}: `{vname}` is recomputed whenever `{last}` is updated to a new `{key}`")
+                elif ok:
+                    ctx.ok("A8", f"{fi.qualname}: `{vname}` follows `{key}`")
+    if n < 1:
+        ctx.floor("A8", 99)
+
+
+def PT_assign(st):
+    if isinstance(st, ast.Assign) and len(st.targets) == 1:
+        return st.targets[0], st.value
+    if isinstance(st, ast.AnnAssign):
+        return st.target, st.value
+    return None, None
